@@ -1,3 +1,4 @@
+import Ntrip.Guards.Apps
 import Ntrip.Model.Analyse
 import Ntrip.Generated.Skeletons
 /-!
@@ -86,5 +87,8 @@ theorem tie_fanout :
 /-! Non-vacuity (tests): two different histories, same frame. -/
 example : (getMessage crc24q (newState 0) [0xD3, 0, 2, 0x3E, 0xD0, 0xA4, 0xDF, 0x00]).1 =
     (getMessage crc24q (newState 1683979200000) [0xD3, 0, 2, 0x3E, 0xD0, 0xA4, 0xDF, 0x00]).1 := by decide +kernel
+
+/-- Tie T1 (guards): the conditions and the effects (field writes, helper calls) of `Analyse`, `analyse*`, `String`, `Copy`, the message constructors: decoding writes `ErrorMessage`/`Readable` by plain assignment and nothing else. -/
+theorem tie_guards_analyse : type_of% Ntrip.Guards.analyse := Ntrip.Guards.analyse
 
 end Ntrip.C15
